@@ -22,6 +22,8 @@ type Term struct {
 	Sort string
 	T    types.Type // may be nil for spec-only terms
 	Lit  bool       // untyped integer literal (may be coerced to a bit-vector)
+	Room string     // element pointers: number of elements from the pointer to the end of the slice it came from
+	Word bool       // *uint64 obtained by converting a pointer into a byte slice (unsafe word access)
 }
 
 func (t Term) String() string { return t.S }
